@@ -1396,7 +1396,7 @@ func (c14Engine) Meta() core.Meta {
 			"trace: kill at an operation (torn write), EIO/ENOSPC/EACCES/ENOENT on a cache-dir or temp-dir operation, stdout accepting only B bytes and then failing with ENOSPC, EIO or EPIPE (SIGPIPE unless ignored); the faulted " +
 			"step itself is never judged, every later fault-free step is. A quarter of the histories are executed a third time with one step turned into 2-3 invocations that run at the same time " +
 			"(the same invocation twice or three times, another one of the history, a purge; one may be killed or lose its reader) under a seeded schedule: the stalled writer, bursts, or turns of 1-3 operations from a cache-directory operation on. A case is one judged step; it is non-trivial when its state key is new.",
-		StateRule: "distinct (mode, subcommand, option-flag set, stdin mode, cache outcome {uncached, miss-armed, hit, armed-failed, killed} read off the event trace, exit status, sink, first fault fired)",
+		StateRule: "distinct (mode, subcommand, option-flag set, stdin mode, cache outcome {uncached, miss-armed, hit, armed-failed, killed} read off the event trace, exit status, sink, first fault fired); for invocations at the same time: (subcommand, number of parties, for the first eight hand-overs: which party was set aside behind which kind of operation on which class of file)",
 		Assumptions: []string{
 			"the simulated os reproduces what the real binary sees (differential self-tests: ./check selftest simfs, ./check selftest fidelity)",
 			"stderr text, cache directory contents and leftover temp files are not part of the statement and are not compared",
